@@ -1,14 +1,32 @@
 //go:build verif
 
-// Assumed contract of the conversion from math/big (comment-only; installed by /verif/gcv gen-contracts): SetBigInt goes
-// through a sync.Pool and big.Int.Bits, which are outside the subset; what its callers rely on is its documented meaning.
+// The conversion from math/big (comment-only; installed by /verif/gcv gen-contracts). SetBigInt was an ASSUMED contract
+// until the last stretch; it is now proved: setBigInt copies the little-endian words of a v with 0 <= v < q into a
+// zeroed z (big.Int.Bits by its documented meaning: the normalised word slice of |v|, so that v < q bounds its
+// length by the number of limbs) and converts to Montgomery form; SetBigInt sends v = q to zero, 0 <= v < q straight
+// to setBigInt and everything else through big.Int.Mod (the Euclidean remainder: SMT-LIB's mod) by the modulus, which
+// is read off the package initialiser (_modulus.SetString("<hex>", 16)) and is the pinned q.
 
 package babybear
 
+//@ func Element.setBigInt
+//@ tags any
+//@ layer bigint big.Int
+//@ smt (define-fun-rec big.fromwords ((a (Array Int Int)) (lo Int) (hi Int)) Int (ite (>= lo hi) 0 (+ (select a lo) (* 18446744073709551616 (big.fromwords a (+ lo 1) hi)))))
+//@ requires 0 <= *v && *v < q && forall(i, 0, N, z[i] == 0)
+//@ loop 0
+//@ + invariant[copied] 0 <= i && i <= len(vBits) && len(vBits) <= N && forall(j, 0, i, z[j] == vBits[j]) && forall(j, i, N, z[j] == 0)
+//@ ensures[value] reg(val(z)) == old(*v) && val(z) < q
+//@ ensures[result] result == z
+//@ modifies z
+//@ end
+
 //@ func Element.SetBigInt
 //@ tags any
-//@ assumed conversion from math/big (sync.Pool, big.Int.Bits are outside the subset): documented meaning, z = v mod q in Montgomery form
 //@ layer bigint big.Int
+//@ option nomerge
+//@ option split-post
+//@ option opaque Get Put
 //@ ensures[value] reg(val(z)) == bigmod(*v, q) && val(z) < q
 //@ ensures[result] result == z
 //@ modifies z
